@@ -77,11 +77,11 @@ func correlatedIfs(g *IG, z *Polyizer) []corrGroup {
 	byKey := map[string][]int{}
 	var order []string
 	for n, in := range g.Ins {
-		ifi, ok := in.(*ssa.If)
+		_, ok := in.(*ssa.If)
 		if !ok {
 			continue
 		}
-		f, ok := condFact(ifi.Cond, true)
+		f, ok := condFact(g.Cond(n), true)
 		if !ok || f.Y == nil || !stableOperand(f.X) || !stableOperand(f.Y) {
 			continue
 		}
